@@ -167,7 +167,13 @@ def check_decorations(prog, rep):
     try:
         # helpers introduced by an edit and the dimension helper itself are inlined: the rectangle is compared in its
         # expanded form Rectangle::new(position + Size::new(0, d.offset), Size::new(width, d.height))
-        summs = Paths(prog, inline=lambda g: prog.is_new(g) or g.name == "get_bounding_box").of(dd)
+        inl = lambda g: prog.is_new(g) or g.name == "get_bounding_box"
+        try:
+            summs = Paths(prog, inline=inl).of(dd)
+        except Unsupported:
+            # a `for` over an array literal of (colour, dimensions) pairs: unrolled (A.9), same summaries as the
+            # straight-line code
+            summs = Paths(prog, inline=inl, loops="unroll").of(dd)
     except Unsupported as e:
         summs = []
         bad.append("cannot summarise draw_decorations: %s" % e)
